@@ -63,7 +63,7 @@ Qed.
 Print Assumptions C06_close_only_after_store_partial.
 
 Example C06_nonvacuous :
-  let s := run (init_st 1 [(1, KWriter [0%nat] [0%nat] true [] [])]) (repeat 0%nat 9) in
+  let s := run (init_st 1 [(1, KWriter [0%nat] [0%nat] true [] [])]) (repeat 0%nat 10) in
   s_closed s = [] /\ map tv_ids (s_root s) = [[1]] /\ s_closed (step s 0%nat) = [0].
 Proof. repeat split; reflexivity. Qed.
 
@@ -128,8 +128,8 @@ Example C06_nonvacuous_wake :
   let acts := [(1%N, KWriter [0] [0] true [] []); (2%N, KWriter [0; 1] [1] true [] [])] in
   wf_system 2 acts /\
   map tv_watch (s_root (reach 2 acts [])) = [0%N; 1%N] /\
-  In 0%N (s_closed (reach 2 acts (repeat 0 10))) /\
-  map tv_ids (s_root (reach 2 acts (repeat 0 10))) = [[1%N]; []].
+  In 0%N (s_closed (reach 2 acts (repeat 0 11))) /\
+  map tv_ids (s_root (reach 2 acts (repeat 0 11))) = [[1%N]; []].
 Proof.
   split; [split|].
   - intros ik [<-|[<-|[]]]; cbn; repeat split; try (intros x Hx; cbn in Hx; intuition (subst; cbn; auto)).
@@ -603,11 +603,11 @@ Theorem C06_db_good_reachable : forall ntab actors sched, wf_system ntab actors 
 Proof. exact Good_reachable. Qed.
 Print Assumptions C06_db_good_reachable.
 
-(* the queue is carried unchanged to the notify micro-step (own steps root lock / root store / root unlock; steps of other
+(* the queue is carried unchanged to the notify micro-step (own steps root lock / root load / root store / root unlock; steps of other
    actors do not touch the actor), which closes exactly it *)
 Theorem C06_db_notify_queue_carried_and_closed : forall s i a tabs wr c rg dn,
   nth_error (s_actors s) i = Some a -> a_kind a = KWriter tabs wr c rg dn ->
-  (a_pc a = PCommitIdx \/ a_pc a = PRootLocked \/ a_pc a = PRootStored ->
+  (a_pc a = PCommitIdx \/ a_pc a = PRootLocked \/ a_pc a = PCommitLoaded \/ a_pc a = PRootStored ->
    exists a', nth_error (s_actors (DB.Model.step s i)) i = Some a' /\ a_notify a' = a_notify a /\ a_kind a' = a_kind a /\
               s_closed (DB.Model.step s i) = s_closed s) /\
   (forall j, i <> j -> nth_error (s_actors (DB.Model.step s j)) i = nth_error (s_actors s) i) /\
